@@ -773,8 +773,9 @@ def install8(ip):
     ip.pattern_models = [(re.compile(r'^<dyn (for<.*?> )?Fn.* as Fn(Mut|Once)?<.*>>::call(_mut|_once)?$'), m_dyn_fn_call)] + ip.pattern_models
 
 def m_arc_try_unwrap(ip, c, a): return res_ok(a[0].fields[0].v)
+def m_arc_ptr_eq(ip, c, a): return unref(a[0]) is unref(a[1])
 def install9(ip):
-    ip.pattern_models = [(re.compile(r'^Arc::try_unwrap$'), m_arc_try_unwrap)] + ip.pattern_models
+    ip.pattern_models = [(re.compile(r'^Arc::try_unwrap$'), m_arc_try_unwrap), (re.compile(r'^Arc::ptr_eq$'), m_arc_ptr_eq)] + ip.pattern_models
 
 # ---- seventh batch: bytes, Try, dyn dispatch helpers
 def m_to_le_bytes(ip, c, a):
